@@ -233,6 +233,71 @@ impl TransportVisitor for V {
                 op!("request#2", p.request(&[7, 0, 0, 0, 100, 0, 0], &mut resp));
             }
         }
+        // Interrupt suppression through the drivers' own switches: without event index the device
+        // must read exactly the last setting in avail.flags of the queues the switch governs.
+        let flags_of = |q: u16| -> Option<u16> {
+            let mut c = co.borrow_mut();
+            c.unfetched(q);
+            c.queues.get(&q).and_then(|r| r.avail_flags().ok())
+        };
+        let mut irq = |what: &str, queues: &[u16], disabled: bool| {
+            if ev {
+                return;
+            }
+            for q in queues {
+                let f = flags_of(*q);
+                if f != Some(disabled as u16) {
+                    viol("interrupt-setting", format!("{} driver: after {} the device reads avail.flags = {:?} on queue {}, expected {} (VIRTQ_AVAIL_F_NO_INTERRUPT {})", kind.name(), what, f, q, disabled as u16, if disabled { "set" } else { "clear" }));
+                }
+            }
+        };
+        match &mut d {
+            AnyDriver::Blk(b) => {
+                b.disable_interrupts();
+                irq("disable_interrupts", &[0], true);
+                let mut buf = vec![0u8; 512];
+                op!("read_blocks(interrupts off)", b.read_blocks(4, &mut buf));
+                irq("disable_interrupts + read_blocks", &[0], true);
+                b.enable_interrupts();
+                irq("enable_interrupts", &[0], false);
+            }
+            AnyDriver::Rng(r) => {
+                r.disable_interrupts();
+                irq("disable_interrupts", &[0], true);
+                let mut dst = [0u8; 4];
+                op!("request_entropy(interrupts off)", r.request_entropy(&mut dst));
+                irq("disable_interrupts + request_entropy", &[0], true);
+                r.enable_interrupts();
+                irq("enable_interrupts", &[0], false);
+            }
+            AnyDriver::NetRaw(n) => {
+                n.disable_interrupts();
+                irq("disable_interrupts", &[0, 1], true);
+                op!("send(interrupts off)", n.send(&[9, 9]));
+                irq("disable_interrupts + send", &[0, 1], true);
+                n.enable_interrupts();
+                irq("enable_interrupts", &[0, 1], false);
+            }
+            AnyDriver::NetBuf(n) => {
+                n.disable_interrupts();
+                irq("disable_interrupts", &[0, 1], true);
+                let tx = n.new_tx_buffer(3);
+                op!("send(interrupts off)", n.send(tx));
+                irq("disable_interrupts + send", &[0, 1], true);
+                n.enable_interrupts();
+                irq("enable_interrupts", &[0, 1], false);
+            }
+            AnyDriver::Sound(s) => {
+                s.enable_interrupts(false);
+                irq("enable_interrupts(false)", &[1], true);
+                fill(1, &[0, 0x11, 0, 0, 2, 0, 0, 0]);
+                op!("latest_notification(interrupts off)", s.latest_notification());
+                irq("enable_interrupts(false) + latest_notification", &[1], true);
+                s.enable_interrupts(true);
+                irq("enable_interrupts(true)", &[1], false);
+            }
+            _ => {}
+        }
         tag("driver-notify-script");
         let _ = crate::util::catch(|| drop(d));
         cosim::uninstall();
